@@ -15,6 +15,11 @@ CLAIMED = {
    text="Typed-generator sessions (closures, recursion, generators, every operator and operand source, planted faults of every class) and directed corpus sessions are executed statement by statement by an independent reference interpreter and by the real pipeline in REPL and script mode; value tree, output bytes and error class must agree. Evidence lists executed instruction shapes and compile-context classes.",
    note="Trusts harness/rs as the executable README; programs relying on behaviour the README leaves open are detected by the reference and dropped (counted).",
    design="6/C01"),
+ "C02": dict(
+   technique="runtime monitoring: trace-specification checker over recorded yield/resume/body event logs of instrumented generator pipelines (reference-free laws + list model) + differential reference-model monitor, four allocation stress modes",
+   text="Generator pipelines (leaf, map, filter, chain, take, nest, relay, zip) written in calc with every yield bracketed by trace writes are consumed by loops at top level, in functions, at recursion depth, after recycled contexts and with early returns; the event log must satisfy the suspension-stack, body-after-yield, resume-after-body, exactly-once and abandon laws and match a list model. The same pipelines untraced and generator-heavy typed sessions are compared with the reference semantics.",
+   note="Trace laws need no model of calc; the list model of constant-leaf pipelines and harness/rs are trusted for the value sequences.",
+   design="6/C02"),
  "C05": dict(
    technique="runtime monitoring: universal no-abort monitor (panic/fatal/step-limit/undocumented-error oracle) over hostile parseable programs in child processes, both compile modes",
    text="Grammar-random ill-typed programs, an enumerated hostile-value x operator/statement-position matrix, token mutations of corpus programs and fault-planted typed sessions run through the real parser, compiler and VM in REPL and script mode inside child workers; any panic, Go fatal (worker death), undocumented error class, or step-limit hit where the reference interpreter terminates is a violation.",
@@ -25,6 +30,11 @@ CLAIMED = {
    text="After every statement of typed and directed sessions (both compile modes) the hooked (sp, frame, closure, live-context) counts must equal their values before it (all zero after a failure). Loop programs of six loop kinds x nine body tails are run with 3/30/300 iterations; the max stack pointer per memory kind and max live contexts at back-edges must be identical.",
    note="Relies on the verif accessors for sp/fp/closure/context counts and the step hook's per-memory maxima.",
    design="6/C09"),
+ "C12": dict(
+   technique="runtime monitoring: metamorphic placement monitor (one expression in ~35 code-generation contexts, rewrite equivalences, enumerated non-boolean conditions) with the reference semantics as tie-breaker",
+   text="Typed expressions are embedded in used/discarded/tail/return/argument/array/if/while/for/yield/top-level-return/operand-depth placements, each run on a fresh interpreter and compared (value where observable, output, error class) with the reference answer for the plain expression; x=x+1 vs x=1+x vs t=x;x=t+1, e op e vs t=e;t op t, negated if/while are cross-compared in both modes; every non-boolean condition in 24 statement placements must be a type error that runs no body.",
+   note="Expressions the reference finds ambiguous or nil-valued are dropped.",
+   design="6/C12"),
  "C15": dict(
    technique="runtime monitoring: exhaustive round-trip assertion over the operand-field space + OR-composition and function-layout sweeps (+ limit-crossing sessions)",
    text="The real EncodeSrc/New/decoders are executed on every slot x kind x address in -70000..70000 (complete), every opcode with composed operands, and the function-value layout lattice; each accepted encode must decode to exactly its inputs with all other fields zero, the only alternative being a refusal.",
